@@ -232,11 +232,15 @@ def gen_case(rng, malformed=False):
             roots = ["/" + "/".join(lp)]
     if malformed:
         m = rng.random()
-        if m < 0.2:
-            roots.append(rng.choice(["/r/a", "/r", "r", "/nonexistent", "/r/../r"]))
-        elif m < 0.3 and files:
+        sub = [d for d in dirs if len(d) > 1 and d[0] == "r"]
+        if m < 0.3 and sub:
+            nested = "/" + "/".join(rng.choice(sub))          # a code-base directory inside another one
+            roots.insert(rng.randint(0, len(roots)), nested)
+        elif m < 0.4:
+            roots.append(rng.choice(["/r", "r", "/nonexistent", "/r/../r"]))
+        elif m < 0.48 and files:
             roots = ["/" + "/".join(rng.choice(files))]
-        elif m < 0.35:
+        elif m < 0.52:
             roots = []
     lines = gen_lines(rng, dirs, files)
     if malformed:
@@ -335,6 +339,9 @@ class C09(Check):
                     lists.append([signs[0] + a, signs[1] + b, signs[2] + c])
         for ls in lists:
             out.append([FIXED_TREE, [], ["/r"], ls, qs])
+        for a in ATOMS:                 # overlapping code-base directories (outside the quantifier: I vs M only)
+            out.append([FIXED_TREE, [], ["/r", "/r/a"], [a], qs])
+            out.append([FIXED_TREE, [], ["/r/a", "/r"], [a], qs])
         self.stats["exhaustive"] = {"cases": len(lists), "bound": "all lists of <= 2 lines over 28 atoms (second line plain or negated) "
                                     + ("and a third over 11 atoms with 4 sign patterns " if not quick else "(plain pairs: one third) ")
                                     + "on the fixed tree, 15 queries each"}
